@@ -300,6 +300,55 @@ pub fn run(ctx: &Ctx) -> Result<Evidence, String> {
             Verdict::Violated(m) => ctx.violate(&m, judge::replay_json("query", &text, doc, &j)),
         }
     });
+    // sustained concurrent rendering: every thread works on documents of its own in which a few
+    // "hot" member names that need escaping recur in every record next to names that occur once
+    // (shared tables / memos of rendered steps are hit and evicted at the same time)
+    let mut acc = acc;
+    {
+        let threads = ctx.threads.clamp(2, 16);
+        let rounds = ctx.tier.pick(120, 1500);
+        let barrier = std::sync::Barrier::new(threads);
+        let checked = std::sync::atomic::AtomicU64::new(0);
+        std::thread::scope(|s| {
+            for t in 0..threads {
+                let (barrier, checked) = (&barrier, &checked);
+                s.spawn(move || {
+                    barrier.wait();
+                    for round in 0..rounds {
+                        let recs: Vec<J> = (0..40)
+                            .map(|i| {
+                                J::Obj(vec![
+                                    ("it's".to_string(), J::int(1)),
+                                    ("C:\\temp".to_string(), J::int(2)),
+                                    ("tab\there".to_string(), J::Arr(vec![J::int(3)])),
+                                    ("plain".to_string(), J::int(4)),
+                                    (format!("w{}'r{}'i{}", t, round, i), J::int(5)),
+                                ])
+                            })
+                            .collect();
+                        let doc = Doc::new(&J::Arr(recs));
+                        for q in ["$[*][*]", "$..*", "$[*][?@]"] {
+                            if let LibOutcome::Ok(ns) = libapi::query_with_path(q, &doc.value) {
+                                for (a, p) in &ns {
+                                    let want = doc.loc_of(*a).map(|l| npath::render(l));
+                                    if want.as_deref() != Some(p.as_str()) {
+                                        ctx.violate(
+                                            &format!("under concurrent use ({} threads, thread {} round {}): the node at {:?} is reported with the path {:?}", threads, t, round, want, p),
+                                            json!({"kind":"schedule","query": q, "threads": threads, "document": serde_json::from_str::<serde_json::Value>(&doc.text()).unwrap_or_default()}),
+                                        );
+                                        return;
+                                    }
+                                }
+                                checked.fetch_add(ns.len() as u64, std::sync::atomic::Ordering::Relaxed);
+                            }
+                        }
+                    }
+                });
+            }
+        });
+        acc.count("concurrent_rendering_paths_checked", checked.load(std::sync::atomic::Ordering::Relaxed));
+        acc.count("concurrent_rendering_threads", threads as u64);
+    }
     if acc.counters.get("HARNESS_render_parse_mismatch").copied().unwrap_or(0) > 0 {
         return Err("renderer produced strings oracle (b) cannot parse".into());
     }
